@@ -1,6 +1,7 @@
 package main
 
 import (
+	"os"
 	"fmt"
 	"go/constant"
 	"go/token"
@@ -459,6 +460,9 @@ func (x *Exec) findLoops() {
 		x.loops[h].ord = i + 1
 		if x.fc != nil {
 			x.loops[h].spec = x.fc.Loops[i+1]
+		}
+		if os.Getenv("GOVC_LOOPS") != "" {
+			fmt.Fprintf(os.Stderr, "loop %d of %s starts at %s\n", i+1, x.key, x.P.SSA.Fset.Position(posOf(h)))
 		}
 	}
 }
